@@ -7,6 +7,7 @@ from ..engines import (auth_fixpoint, auth_check, CT_T, CT_F, OK, ERR, returns_r
 from ..expr import expr_of_operand, atoms_of
 
 CT_EQ = "subtle::ConstantTimeEq::ct_eq"
+COPY = ("core::slice::<impl [T]>::copy_from_slice", "types::MutBytes::copy_from_slice")
 POLY_FINAL = re.compile(r"(^|::)poly1305(::\w+)*::Poly1305::finalize")
 POLY_UPDATE = re.compile(r"(^|::)poly1305(::\w+)*::Poly1305::update$")
 POLY_NEW = re.compile(r"(^|::)poly1305(::\w+)*::Poly1305::new$")
@@ -107,8 +108,9 @@ def view_info(fn, local, depth=10):
         if len(d) == 1 and d[0][1] == "call":
             c = d[0][2]
             if c.args and c.args[0].get("k") in ("copy", "move"):
-                if c.path in RESLICE or c.rpath in RESLICE or c.path in OPTION_ADAPTERS:
-                    if c.path in NARROWING:
+                local_view = fn.prog is not None and c.rkey in fn.prog.reslicers
+                if c.path in RESLICE or c.rpath in RESLICE or c.path in OPTION_ADAPTERS or local_view:
+                    if c.path in NARROWING or (local_view and c.rkey in fn.prog.narrowing_reslicers):
                         narrowed = True
                     cur = c.args[0]["l"]
                     continue
